@@ -21,7 +21,7 @@ lane() {
     d=$ROOT/$k/verif/seeded/$id
     p=$(python3 -c "import json;print(json.load(open('$d/meta.json'))['property'])")
     extra=$(python3 -c "
-import json;d=json.load(open('$d/meta.json'));print(' '.join('--check '+c for c in (d.get('results') or {}) if c!=d['property']))")
+import json;d=json.load(open('$d/meta.json'));print(' '.join('--check '+c for c in dict.fromkeys(list(d.get('results') or {})+list(d.get('also_check') or [])) if c!=d['property']))")
     (cd $ROOT/$k/verif && SEEDRUN_REPO=$ROOT/$k/repo SEEDRUN_VERIF_HEAD=$VH VERIF_JOBS=3 tools/seedrun.py $p seeded/$id $id $extra 2>&1 | grep -E "SEED|->")
     cp $d/meta.json $V/seeded/$id/meta.json
     git -C $ROOT/$k/repo checkout -- . 2>/dev/null
